@@ -36,6 +36,11 @@ def main(argv=None):
     ap.add_argument('--digest-only', action='store_true')
     ap.add_argument('--no-shrink', action='store_true')
     ap.add_argument('--selftest', action='store_true')
+    ap.add_argument('--digests', type=int,
+                    help='print the event-log digests of the first N runs')
+    ap.add_argument('--warmup', type=int, default=0,
+                    help='with --digests: execute this many unrelated runs '
+                         'first (perturbs the parent process state)')
     ap.add_argument('--seed-run', type=int,
                     help='execute the single run with this run seed and '
                          'print its result')
@@ -47,6 +52,17 @@ def main(argv=None):
 
     if a.replay:
         return do_replay(prop, a)
+    if a.digests:
+        for i in range(a.warmup):
+            R.in_child(R.exec_run(prop, R.run_seed(seed + 777, prop.ID, i),
+                                  a.tier))
+        out = {}
+        for i in range(a.digests):
+            rs = R.run_seed(seed, prop.ID, i)
+            st, res = R.in_child(R.exec_run(prop, rs, a.tier))
+            out[str(rs)] = (res or {}).get('digest') if st == 'ok' else st
+        print(json.dumps(out))
+        return 0
     if a.seed_run is not None:
         st, res = R.in_child(R.exec_run(prop, a.seed_run, a.tier))
         if isinstance(res, dict):
